@@ -14,7 +14,11 @@
    commands:
      F fexp entry                   prints  res(sc=true) # res(sc=false)
      G <maxlen> fexp <nops> REP lop prints the observation after every op, separated by semicolons: raw ids|view ids
-     lop = L <id> entry | S + fexp | S - | P <0 or 1> | C  *)
+     lop = L <id> entry | S + fexp | S - | P <0 or 1> | C
+     P <n> REP <code point below 256>   the text parsed by the model of the grammar (FilterSyntax.parse, enum
+                                        references resolved to A): prints  OK fexp  (same encoding as above) or REJECT
+     K <n> REP <code point>             same through FilterSyntax.compile (strip, empty filter, lone bang)
+     Q fexp                             prints  <wf_syntax 0 or 1> <n> REP <code point>  : FilterSyntax.print  *)
 let toks : string list ref = ref []
 let next () = match !toks with [] -> failwith "eof" | t :: r -> toks := r; t
 let int_ () = int_of_string (next ())
@@ -79,6 +83,46 @@ let entry_ () =
   let blocks = rep nb (fun () -> let bn = str_ () in let c = int_ () in (bn, rep c block_)) in
   { e_kind = k; e_name = nm; e_type = ty; e_meta_ci = ci; e_meta = layers; e_blocks = blocks }
 
+(* ---- concrete syntax ---- *)
+let ascii_of_int (n : int) : ascii =
+  let b i = (n lsr i) land 1 = 1 in Ascii (b 0, b 1, b 2, b 3, b 4, b 5, b 6, b 7)
+let int_of_ascii (Ascii (b0, b1, b2, b3, b4, b5, b6, b7)) : int =
+  let v b i = if b then 1 lsl i else 0 in
+  v b0 0 + v b1 1 + v b2 2 + v b3 3 + v b4 4 + v b5 5 + v b6 6 + v b7 7
+let text_ () = let n = int_ () in rep n (fun () -> ascii_of_int (int_ ()))
+let rec bits_of_pos (p : positive) : string = match p with
+  | XH -> "1" | XO q -> bits_of_pos q ^ "0" | XI q -> bits_of_pos q ^ "1"
+let bits_of_z (z : z) : string = match z with
+  | Z0 -> "0" | Zpos p -> bits_of_pos p | Zneg p -> "-" ^ bits_of_pos p
+let enc_str (s : str) = String.concat " " (string_of_int (List.length s) :: List.map (fun c -> string_of_int (int_of_n c)) s)
+let enc_num (x : num) =
+  (match x.nkind with KB -> "0" | KI -> "1" | KF -> "2") ^ " " ^ bits_of_z x.nnum ^ " " ^ bits_of_pos x.nden
+let enc_pv = function
+  | PNone -> "N"
+  | PNum x -> "X " ^ enc_num x
+  | PStr s -> "S " ^ enc_str s
+  | PBytes (None, b) -> "B 0 " ^ enc_str b
+  | PBytes (Some r, b) -> "B 1 " ^ enc_str r ^ " " ^ enc_str b
+  | PTup l -> String.concat " " ("T" :: string_of_int (List.length l) :: List.map enc_num l)
+  | PCoord (l, r) -> String.concat " " ("C" :: string_of_int (List.length l) :: List.map enc_num l) ^ " " ^ enc_str r
+  | POther r -> "O " ^ enc_str r
+let enc_value = function
+  | VLit v -> "L " ^ enc_pv v
+  | VMeta l -> String.concat " " ("M" :: string_of_int (List.length l) :: List.map enc_str l)
+  | VEnum (a, b, r) -> "E " ^ enc_str a ^ " " ^ enc_str b ^ " " ^
+      (match r with ERes v -> "R " ^ enc_pv v | ENoEnum -> "A" | ENoField -> "K")
+let op_index = function
+  | OEq -> 0 | ONe -> 1 | OStarts -> 2 | OEnds -> 3 | OIn -> 4 | OLt -> 5 | OLe -> 6 | OGt -> 7 | OGe -> 8 | OBand -> 9
+let rec enc_fexp = function
+  | Leaf (s0, rest, ov) ->
+    "l " ^ enc_str s0 ^ " " ^ String.concat " " (string_of_int (List.length rest) :: List.map enc_str rest) ^ " " ^
+    (match ov with None -> "-" | Some (o, v) -> "+ " ^ string_of_int (op_index o) ^ " " ^ enc_value v)
+  | Not f -> "n " ^ enc_fexp f
+  | And (f, g) -> "a " ^ enc_fexp f ^ " " ^ enc_fexp g
+  | Or (f, g) -> "o " ^ enc_fexp f ^ " " ^ enc_fexp g
+let no_enum : str -> str -> eres = fun _ _ -> ENoEnum
+let show_parsed = function None -> "REJECT" | Some f -> "OK " ^ enc_fexp f
+
 let show_str (s : str) = String.concat "," (List.map (fun c -> string_of_int (int_of_n c)) s)
 let show_key (((b, i), v) : fkey) = show_str b ^ "/" ^ string_of_int (int_of_n i) ^ "/" ^ show_str v
 let show_res = function
@@ -110,6 +154,13 @@ let () =
           let ops = rep n lop_ in
           let tr = ctrace (nat_of_int ml) (init f0) ops in
           print_endline (String.concat ";" (List.map (fun (r, v) -> show_ids r ^ "|" ^ show_ids v) tr))
+        | "P" -> let t = text_ () in print_endline (show_parsed (parse no_enum t))
+        | "K" -> let t = text_ () in print_endline (show_parsed (compile no_enum t))
+        | "Q" ->
+          let f = fexp_ () in
+          let t = print f in
+          print_endline (String.concat " " ((if wf_syntax f then "1" else "0") :: string_of_int (List.length t)
+                                            :: List.map (fun c -> string_of_int (int_of_ascii c)) t))
         | t -> print_endline ("?" ^ t)
       with Failure m -> print_endline ("PARSE-ERROR " ^ m))
     done
